@@ -239,89 +239,10 @@ fn clip_batch_trivial_paths() {
     }
 }
 
-fn cvert<A>(x: F, y: F, z: F, w: F, a: A) -> ClipVert<A> {
-    // concrete position: every control decision of the clipper (distances, outcodes, crossing parameters) is concrete
-    ClipVert::new(vertex(ClipVec::new([x, y, z, w]), a))
-}
-
-fn same_pos<A>(a: &ClipVert<A>, b: &ClipVert<A>) -> bool {
-    a.pos.0[0].to_bits() == b.pos.0[0].to_bits() && a.pos.0[1].to_bits() == b.pos.0[1].to_bits()
-        && a.pos.0[2].to_bits() == b.pos.0[2].to_bits() && a.pos.0[3].to_bits() == b.pos.0[3].to_bits() && a.outcode == b.outcode
-}
-
-// @ob props=C03 tier=quick kind=B cfg=core-std timeout=1800
-// @fn <[Tri<ClipVert<A>>] as Clip>::clip ; clip_simple_polygon ; ClipPlane::clip_simple_polygon
-// @bound three fixed clip-space geometries (a triangle that survives the outcode test but is clipped away completely, one clipped to a quad across the right plane, one crossing near and left with w varying), integer attribute tags; fully concrete, executed symbolically
-// @clause batch independence on the clipped path: the triangles produced for an input are, bit for bit, those produced when it is clipped alone, whatever precedes it in the same call (also an input that is whittled down to nothing); a wholly clipped-away input produces nothing; no output vertex lies outside the frustum by more than rounding
-#[cfg(not(verif_skip_clip_batch_clipped_paths))]
-#[kani::proof]
-#[kani::unwind(12)]
-fn clip_batch_clipped_paths() {
-    let ghost = || Tri([cvert(2.0, 2.0, 2.0, 1.0, ()), cvert(2.0, -2.0, 0.0, 1.0, ()), cvert(0.0, -1.0, 2.0, 1.0, ())]);
-    let quad = || Tri([cvert(0.0, 0.0, 0.0, 1.0, ()), cvert(2.0, 0.0, 0.0, 1.0, ()), cvert(0.0, 0.0, 0.5, 1.0, ())]);
-    let corner = || Tri([cvert(-3.0, 0.0, -2.0, 1.0, ()), cvert(0.5, 0.5, 0.5, 2.0, ()), cvert(0.0, -0.5, 1.0, 1.5, ())]);
-    let run = |ts: &[Tri<ClipVert<()>>]| {
-        let mut out = alloc::vec::Vec::new();
-        view_frustum::clip(ts, &mut out);
-        out
-    };
-    let alone_q = run(&[quad()]);
-    let alone_c = run(&[corner()]);
-    assert!(run(&[ghost()]).is_empty());
-    let batch = run(&[ghost(), quad(), ghost(), corner()]);
-    kani::cover!(true);
-    assert!(alone_q.len() == 2 && alone_c.len() >= 1);
-    assert!(batch.len() == alone_q.len() + alone_c.len());
-    let mut i = 0;
-    while i < batch.len() {
-        let want = if i < alone_q.len() { &alone_q[i] } else { &alone_c[i - alone_q.len()] };
-        let mut k = 0;
-        while k < 3 {
-            assert!(same_pos(&batch[i].0[k], &want.0[k]));
-            let [x, y, z, w] = batch[i].0[k].pos.0;
-            let e = 1.0e-5 * w;
-            assert!(w > 0.0 && x >= -w - e && x <= w + e && y >= -w - e && y <= w + e && z >= -w - e && z <= w + e);
-            k += 1;
-        }
-        i += 1;
-    }
-}
-
-// @ob props=C03 tier=quick kind=B cfg=core-std timeout=1800
-// @fn <[Tri<ClipVert<A>>] as Clip>::clip ; ClipPlane::clip_simple_polygon
-// @bound one fixed geometry (a triangle clipped to a quad across the right plane, both crossings at parameter 1/2); complete in the attribute payload (all f32 triples)
-// @clause attributes intact: every kept vertex keeps its attribute bit for bit, and each inserted vertex lies on the clip plane and carries the attribute interpolated along its edge with the same parameter as its position
-#[cfg(not(verif_skip_clip_attributes_follow_positions))]
-#[kani::proof]
-#[kani::unwind(12)]
-fn clip_attributes_follow_positions() {
-    let (a0, a1, a2): (F, F, F) = (kani::any(), kani::any(), kani::any());
-    let quad = Tri([cvert(0.0, 0.0, 0.0, 1.0, a0), cvert(2.0, 0.0, 0.0, 1.0, a1), cvert(0.0, 0.0, 0.5, 1.0, a2)]);
-    let mut out = alloc::vec::Vec::new();
-    view_frustum::clip(&[quad][..], &mut out);
-    kani::cover!(a0 != a1);
-    assert!(out.len() == 2);
-    let beq = |x: F, y: F| x.to_bits() == y.to_bits() || (x.is_nan() && y.is_nan());
-    let mut t = 0;
-    while t < 2 {
-        let mut k = 0;
-        while k < 3 {
-            let v = &out[t].0[k];
-            let [x, _, z, w] = v.pos.0;
-            assert!(w == 1.0 && x <= 1.0);
-            if x == 0.0 && z == 0.0 {
-                assert!(beq(v.attrib, a0));
-            } else if x == 0.0 {
-                assert!(z == 0.5 && beq(v.attrib, a2));
-            } else if z == 0.0 {
-                assert!(x == 1.0 && beq(v.attrib, a0.lerp(&a1, 0.5)));
-            } else {
-                assert!(x == 1.0 && z == 0.25 && beq(v.attrib, a1.lerp(&a2, 0.5)));
-            }
-            k += 1;
-        }
-        t += 1;
-    }
-}
+// Tried and dropped (formulations 6-8 of the clip step, after the five of DESIGN.md 1): with fully CONCRETE clip-space geometry
+// (so that every control decision is concrete) (6) batch independence [ghost, quad, ghost, corner] with () attributes: 30 min,
+// 9 GB, no verdict; (7) the same with symbolic f32 attributes: timeout at 30 min; (8) a single plane, a single triangle,
+// ClipPlane::clip_simple_polygon with symbolic attributes: CBMC aborts (status 6) after 5 min / "pointer to unallocated memory".
+// The Vec-based polygon buffers are what CBMC cannot digest; the clipped path stays undecided.
 
 include!("gen/dispatch_clip.rs");
